@@ -298,6 +298,46 @@ def check_through_aspire(chk, quick):
             chk.fail("flow construction", case, repr(e)[:300], {"backend": backend, "clause": "raise", "level": "through_aspire"})
 
 
+def check_flow_matching(chk):
+    """the continuous (flow-matching) proposal of the zuko back-end in FIVE dimensions, built through `Aspire(flow_matching=True)`: the density
+    returned with the draws is `log_prob` at the draws (to the accuracy of the ODE solver), and `log_prob` is a function of the point - two
+    evaluations of the same points agree"""
+    import torch
+
+    from aspire import Aspire
+    from aspire.samples import Samples
+
+    torch.set_num_threads(max(1, torch.get_num_threads()))
+    d = 5
+    case = {"level": "flow_matching", "backend": "zuko", "dims": d}
+    chk.count("flow_matching")
+    chk.case(None, json.dumps(case))
+    try:
+        names = [f"p{i}" for i in range(d)]
+        a = Aspire(log_likelihood=lambda s: 0.0, log_prior=lambda s: 0.0, dims=d, parameters=names, prior_bounds={n_: [-5.0, 5.0] for n_ in names},
+                   flow_backend="zuko", flow_matching=True, dtype="float64", seed=3)
+        r = np.random.default_rng(21)
+        a.fit(Samples(x=r.normal(0.3, 0.8, (300, d)).clip(-4.5, 4.5), parameters=names), n_epochs=2)
+        f = a.flow
+        with torch.no_grad():
+            x, lq = f.sample_and_log_prob(48)
+            x, lq = ns.to_np(x).reshape(-1, d), ns.to_np(lq).reshape(-1)
+            xt = torch.as_tensor(x, dtype=torch.float64)
+            l1, l2 = ns.to_np(f.log_prob(xt)), ns.to_np(f.log_prob(xt))
+        tolv = 2e-2 * (1 + np.abs(l1))
+        if not np.all(np.abs(l1 - l2) <= 1e-6 * (1 + np.abs(l1))):
+            t = int(np.argmax(np.abs(l1 - l2)))
+            chk.fail("log-density returned with the draws = log_prob at the draws", case,
+                     f"log_prob is not a function of the point: two evaluations of point {t} give {l1[t]!r} and {l2[t]!r}", {"backend": "zuko", "clause": "agree", "level": "flow_matching", "repeat": True})
+        elif not np.all(np.abs(lq - l1) <= tolv):
+            t = int(np.argmax(np.abs(lq - l1) - tolv))
+            chk.fail("log-density returned with the draws = log_prob at the draws", case,
+                     f"5-d flow matching: draw {t} returned {lq[t]!r}, log_prob {l1[t]!r} (max deviation {np.max(np.abs(lq - l1)):.3g})", {"backend": "zuko", "clause": "agree", "level": "flow_matching"})
+        chk.extra["flow_matching_max_dev"] = float(np.max(np.abs(lq - l1)))
+    except Exception as e:   # noqa
+        chk.fail("flow construction", case, repr(e)[:300], {"backend": "zuko", "clause": "raise", "level": "flow_matching"})
+
+
 def run(chk: core.Check):
     r = np.random.default_rng(chk.seed + 3003)
     quick = chk.tier == "quick"
@@ -327,6 +367,7 @@ def run(chk: core.Check):
         for i in range(n):
             check_flow(chk, gen_case(r, i), tmp, drv)
         check_through_aspire(chk, quick)
+        check_flow_matching(chk)
     finally:
         shutil.rmtree(tmp, ignore_errors=True)
 
@@ -346,6 +387,9 @@ def replay(chk: core.Check, path: str) -> int:
         for c in cases:
             if c.get("level") == "through_aspire":
                 check_through_aspire(chk, False)
+                continue
+            if c.get("level") == "flow_matching":
+                check_flow_matching(chk)
                 continue
             c = {k: c[k] for k in ("backend", "bounded", "dtype", "d", "lo", "hi", "affine", "seed", "train", "pile_upper") if k in c}
             check_flow(chk, c, tmp, drv)
